@@ -1,8 +1,9 @@
 #!/bin/bash
 # Run /repo's own tests against /repo/src (pure-Python mode, with the importlib_resources shim) and
-# compare the failure set with the 12 tests that need the compiled accelerators.
-cd /repo || exit 2
-out=$(PYTHONPATH=/repo/src:/verif/shim /venv/bin/python -m pytest tests -q -p no:cacheprovider -n 8 "$@" 2>&1)
+# (TREE=<dir> selects another copy of the repository) and compare the failure set with the 12 tests that need the compiled accelerators.
+TREE=${TREE:-/repo}
+cd "$TREE" || exit 2
+out=$(PYTHONPATH=$TREE/src:/verif/shim /venv/bin/python -m pytest tests -q -p no:cacheprovider -n 8 "$@" 2>&1)
 echo "$out" | tail -3
 fails=$(echo "$out" | grep '^FAILED' | sed 's/ - .*//' | sort)
 expected=$(cat <<'EOL' | sort
